@@ -16,7 +16,7 @@
   the same array alias exactly as in numpy.
 
   The methods are transcribed statement by statement (state of /repo after the repairs of
-  2026-09-26, commit 5aa1222), including the parts of the code that still deviate from numpy
+  2026-09-26, incl. "resize refuses a view before touching its last byte"), including the parts of the code that still deviate from numpy
   (they are marked `DEFECT`).  The theorems about this model are in
   `HealSparse/Props/C05.lean`.
 -/
@@ -574,17 +574,17 @@ def growBuffer (h : Heap) (p : PBA) (nd : Nat) (newstop : Int) : (Heap Ã— PBA) Ã
     let bytes := ((p.data h).take nd) ++ List.replicate (nd - p.len) (0 : Byte)
     ((h ++ bytes.toArray, { p with off := h.size, len := nd, stop := newstop }), none)
 
-/-- `self.resize(newsize)` (lines 133-159).  Before the buffer is resized the padding bits of
-    the last byte are cleared, so the new elements are False whatever the padding held.
-    DEFECT (kept): on a slice view this clears the PARENT's bits that follow the view inside
-    the view's last byte â€” also when the buffer resize then raises. -/
+/-- `self.resize(newsize)` (lines 133-163).  A view of another buffer is refused before anything
+    is touched (as numpy refuses to resize a view).  For an owning buffer the padding bits of the
+    last byte are cleared first, so the new elements are False whatever the padding held. -/
 def resize (h : Heap) (p : PBA) (newsize : Int) : (Heap Ã— PBA) Ã— Option PErr :=
   if newsize < p.size then ((h, p), some .value)
   else if newsize == p.size then ((h, p), none)
   else
     let nd0 := (newsize + p.start) / 8
     let nd := (if (newsize + p.start) % 8 != 0 then nd0 + 1 else nd0).toNat
-    if p.stop % 8 != 0 then
+    if !p.own then ((h, p), some .value)                -- not self._data.flags.owndata
+    else if p.stop % 8 != 0 then
       if p.len == 0 then ((h, p), some .index)          -- self._data[-1] of an empty buffer
       else
         let last := p.off + p.len - 1
